@@ -210,8 +210,29 @@ def getstr_cases(P, res):
                 ok = False
                 res.fail(gs.fq, 'settings:echo', f'.set echoes the boolean {current} as {p.value!r}, which .set does not read back as {current}',
                          loc(gs))
+    # a string setting is echoed as its Python literal (repr): quotes and backslashes inside the value are escaped, so what .set shows
+    # is the string it holds and nothing else
+    SVAL = Sym('STRING_VALUE')
+
+    def on_attr_s(base, a, ex):
+        if base == SETTINGS and a == 'nullvalue':
+            return SVAL
+        return NotImplemented
+
+    def on_call_s(fname, fval, recv, args, kwargs, ex, node):
+        if fname == 'getattr' and len(args) >= 2 and args[0] == SETTINGS and args[1] == 'nullvalue':
+            return SVAL
+        if fname == 'isinstance' and len(args) == 2 and args[0] == SVAL:
+            return show(args[1]) == "global('str')"
+        return NotImplemented
+    for p in Engine(P, on_attr=on_attr_s, on_call=on_call_s).paths(gs, {'self': SETTINGS, gs.params[1]: 'nullvalue'}):
+        if p.decisions or p.outcome != 'return' or p.value != T('call', ('repr', (SVAL,), ())):
+            ok = False
+            res.fail(gs.fq, 'settings:echo-string', f'.set echoes a string setting as its literal, repr(value); it gives '
+                     f'`{show(p.value)[:60] if p.outcome == "return" else p.outcome}`: a value with a quote or a backslash in it is shown as '
+                     f'a different (or unbalanced) string', loc(gs))
     if ok:
-        res.ok({'method': gs.fq, 'round_trip': 'getstr(bool) parses back to the same value'})
+        res.ok({'method': gs.fq, 'round_trip': 'getstr(bool) parses back to the same value', 'string': 'repr(value)'})
 
 
 # ----------------------------------------------------------------------
